@@ -171,12 +171,15 @@ func checkC13(c c13Case) verdict {
 		shortTexts = []string{o.Secret, sub}
 		recall = func(sec string) error { _, e := otp.ValidateOCRA(sec, string(o.Code), suite, in); return e }
 		secrets = secretNeedles([]string{o.Secret, sub}, c.OKey)
+		// the code that would have been accepted, by the reference (the library's own generation may be what fails)
+		if c.OKey != nil {
+			if rc, rerr := ref.OCRA(c.OKey, cfg, o.In); rerr == nil && len(rc) >= 6 {
+				codes = append(codes, rc)
+			}
+		}
 		if g, gerr := otp.GenerateOCRA(o.Secret, suite, in); gerr == nil {
 			codes = append(codes, g)
-			if e := leak(gerr, secrets, nil); e != "" {
-				return bad(true, []string{"kind=ocra"}, "GenerateOCRA: %s", e)
-			}
-		} else if e := leak(gerr, secrets, nil); e != "" {
+		} else if e := leak(gerr, secrets, codes); e != "" {
 			return bad(true, []string{"kind=ocra"}, "GenerateOCRA: %s", e)
 		}
 		switch {
